@@ -1022,7 +1022,9 @@ func (p *Prog) drainRoot(fi *FuncInfo) *FuncInfo {
 				if c, ok := x.(*ast.CallExpr); ok && hit == nil {
 					if h := p.staticCallee(g.Pkg, c); h != nil && h.Pkg == fi.Pkg && !seen[h.Key] && h.Decl.Body != nil {
 						seen[h.Key] = true
-						if pops(h) {
+						// (a helper that only empties the lists into a collection, while unlinking and publishing
+						// happen in its siblings, is a stage: the rules then read the function that runs the stages)
+						if pops(h) && p.funcCallsDeep(h, p.keysPred(kNodeDeleteLink)) {
 							hit = h
 						} else {
 							next = append(next, h)
